@@ -43,13 +43,6 @@ def plan(tier, seed):
 
 def check_conforming(sh, p, r, case):
     """invariants that hold on conforming files only"""
-    from nv.findings import f60_shape
-    for l in p.lines:
-        if l.kind == "stmt" and f60_shape([tuple(x) for x in l.segs]):
-            # known finding F-60: this statement is cut at its first comma; the partition invariants cannot hold
-            sh.violation("member_call_statement_cut_at_comma", ("IsAssignation",), case,
-                         {"segs": [list(x) for x in l.segs], "text": l.text()})
-            return
     stmts = r.sess.stmts
     sh.count("c07.statement_starts_in_column_1", len(stmts))
     sh.count("c07.statement_ends_with_newline", len(stmts))
